@@ -133,6 +133,7 @@ mod tests {
                     alts: vec![AltSpec {
                         syms: vec![SymUse { rep: Some((RepOp::Star, Some(1))), ..SymUse::plain(Sym::N(1)) }],
                         meta: Meta::default(),
+                        empties: vec![],
                     }],
                 },
                 RuleSpec { name: "A".into(), annotation: None, meta: Meta::default(), alts: vec![AltSpec::of(vec![Sym::T(0)])] },
